@@ -207,4 +207,128 @@ theorem envPrepend_lifts (c : Nat) (hc : c ≠ 36) (append fwd : Bool) (var v : 
   rw [split_join_filter c oldl hold, interp_no_dollar env _ _ hnd]
 
 
+theorem join_cons_ne (c : Nat) (a : Str) (rest : List Str) (hr : rest ≠ []) :
+    join [c] (a :: rest) = a ++ c :: join [c] rest := by
+  cases rest with
+  | nil => exact absurd rfl hr
+  | cons b r => simp [join]
+
+/-- first character of a join of good pieces is not the delimiter -/
+theorem startsWith_join_good (c : Nat) (l : List Str) (hne : l ≠ []) (h : ∀ e ∈ l, GoodPiece c e) :
+    startsWith (join [c] l) [c] = false := by
+  cases l with
+  | nil => exact absurd rfl hne
+  | cons a rest =>
+    have ha := h a (by simp)
+    obtain ⟨hane, hac, _⟩ := ha
+    cases a with
+    | nil => exact absurd rfl hane
+    | cons x xs =>
+      have hx : (c == x) = false := by simp; intro e; exact hac (by simp [e])
+      cases rest with
+      | nil => simp [join, startsWith, List.isPrefixOf, hx]
+      | cons b r => simp [join, startsWith, List.isPrefixOf, hx]
+
+theorem getLast_join_good (c : Nat) (l : List Str) (hne : l ≠ []) (h : ∀ e ∈ l, GoodPiece c e) :
+    ∃ pre x, join [c] l = pre ++ [x] ∧ x ≠ c := by
+  induction l with
+  | nil => exact absurd rfl hne
+  | cons a rest ih =>
+    cases rest with
+    | nil =>
+      have ha := h a (by simp)
+      refine ⟨a.dropLast, a.getLast ha.1, ?_, ?_⟩
+      · simp [join, List.dropLast_concat_getLast]
+      · intro e; exact ha.2.1 (e ▸ List.getLast_mem ha.1)
+    | cons b r =>
+      obtain ⟨pre, x, hp, hx⟩ := ih (by simp) (fun e he => h e (by simp [he]))
+      refine ⟨a ++ c :: pre, x, ?_, hx⟩
+      rw [join_cons_ne c a (b :: r) (by simp), hp]; simp
+
+theorem endsWith_snoc (s : Str) (x c : Nat) : endsWith (s ++ [x]) [c] = (c == x) := by
+  simp [endsWith, List.isPrefixOf]
+
+theorem endsWith_join_good (c : Nat) (l : List Str) (hne : l ≠ []) (h : ∀ e ∈ l, GoodPiece c e) :
+    endsWith (join [c] l) [c] = false := by
+  obtain ⟨pre, x, hp, hx⟩ := getLast_join_good c l hne h
+  rw [hp, endsWith_snoc]; simp; exact fun e => hx e.symm
+
+
+/-- the value as written in the table: optional leading / trailing delimiter around a good piece -/
+def flagged (c : Nat) (pre app : Bool) (v : Str) : Str :=
+  (if pre then [c] else []) ++ v ++ (if app then [c] else [])
+
+theorem applyL_fwd_ne (append : Bool) (v : Str) (old : List Str) : applyL append true [v] old ≠ [] := by
+  intro h
+  have : v ∈ applyL append true [v] old := by
+    unfold applyL; rw [mem_uniq]; cases append <;> simp [appendL, prependL]
+  rw [h] at this; exact absurd this (by simp)
+
+theorem applyL_good (c : Nat) (append fwd : Bool) (v : Str) (oldl : List Str)
+    (hold : ∀ e ∈ oldl, GoodPiece c e) (hv : GoodPiece c v) :
+    ∀ e ∈ applyL append fwd [v] oldl, GoodPiece c e := by
+  intro e he
+  rcases applyL_mem append fwd v oldl e he with h | h
+  · subst h; exact hv
+  · exact hold e h
+
+set_option maxRecDepth 2000 in
+theorem envPrepend_lifts_flags (c : Nat) (hc : c ≠ 36) (append pre app : Bool) (var v : Str)
+    (oldl : List Str) (env : Env)
+    (hold : ∀ e ∈ oldl, GoodPiece c e) (hv : GoodPiece c v)
+    (henv : (env.get var).getD [] = join [c] oldl) :
+    envPrepend append true var (flagged c pre app v) [c] env
+      = .ok (env.set var (flagged c pre app (join [c] (applyL append true [v] oldl)))) := by
+  have hgoodL := applyL_good c append true v oldl hold hv
+  have hneL := applyL_fwd_ne append v oldl
+  have hsw := startsWith_join_good c _ hneL hgoodL
+  have hew := endsWith_join_good c _ hneL hgoodL
+  have hsplitv : split [c] v = [v] := by
+    have := split_join c [v] (by simp) (by intro e he; simp at he; subst he; exact hv.2.1)
+    simpa [join] using this
+  have hnd : (36 : Nat) ∉ join [c] (applyL append true [v] oldl) :=
+    not_mem_join c 36 _ (Ne.symm hc) (fun e he => (hgoodL e he).2.2)
+  have hnd' : (36 : Nat) ∉ flagged c pre app (join [c] (applyL append true [v] oldl)) := by
+    unfold flagged; cases pre <;> cases app <;> simp [hnd, Ne.symm hc]
+  have hvne : v ≠ [] := hv.1
+  -- the three pieces of bookkeeping on the written value
+  have h1 : startsWith (flagged c pre app v) [c] = pre := by
+    cases pre
+    · cases app
+      · simpa [flagged] using startsWith_good c v hv
+      · obtain ⟨x, xs, rfl⟩ : ∃ x xs, v = x :: xs := by
+          cases v with | nil => exact absurd rfl hvne | cons x xs => exact ⟨x, xs, rfl⟩
+        have hx : (c == x) = false := by simp; intro e; exact hv.2.1 (by simp [e])
+        simp [flagged, startsWith, List.isPrefixOf, hx]
+    · simp [flagged, startsWith, List.isPrefixOf]
+  have h2 : (if pre then (flagged c pre app v).drop 1 else flagged c pre app v) = flagged c false app v := by
+    cases pre <;> simp [flagged]
+  have h3 : endsWith (flagged c false app v) [c] = app := by
+    cases app
+    · simpa [flagged] using endsWith_good c v hv
+    · simp [flagged, endsWith, List.isPrefixOf]
+  have h4 : (if app then (flagged c false app v).take ((flagged c false app v).length - 1) else flagged c false app v) = v := by
+    cases app <;> simp [flagged]
+  unfold envPrepend
+  simp only [h1, List.length_singleton, h2, h3, h4, henv]
+  simp only [expand_no_dollar env v hv.2.2, hsplitv, setEnvI]
+  have hflt : List.filter (fun el => decide (el ≠ [])) (split [c] (join [c] oldl)) = oldl := by
+    have := split_join_filter c oldl hold
+    simpa using this
+  rw [hflt]
+  obtain ⟨p, x, hp, hx⟩ := getLast_join_good c _ hneL hgoodL
+  have hew2 : endsWith (c :: join [c] (applyL append true [v] oldl)) [c] = false := by
+    rw [hp, ← List.cons_append, endsWith_snoc]; simp; exact fun e => hx e.symm
+  have hc' : (36 : Nat) ≠ c := Ne.symm hc
+  let J := join [c] (applyL append true [v] oldl)
+  have a1 : (36 : Nat) ∉ c :: J := by simp [hc', J, hnd]
+  have a2 : (36 : Nat) ∉ J ++ [c] := by simp [hc', J, hnd]
+  have a3 : (36 : Nat) ∉ c :: (J ++ [c]) := by simp [hc', J, hnd]
+  cases pre <;> cases app
+  · simp [flagged, hsw, hew, interp_no_dollar env _ _ hnd]
+  · simp [flagged, hsw, hew]; rw [interp_no_dollar env _ _ a2]
+  · simp [flagged, hsw, hew, hew2]; rw [interp_no_dollar env _ _ a1]
+  · simp [flagged, hsw, hew, hew2]; rw [interp_no_dollar env _ _ a3]
+
+
 end EupsModel.PathAlg
